@@ -15,8 +15,8 @@ RULE = ("reference-model oracle on two-geom scenes whose pair is handled by the 
         "ccd_tolerance 1e-6..1e-4, body variant, geom order) x relative poses (separated / in margin / touching / shallow / deep / "
         "centre-inside; random, axis-aligned, face-parallel, edge, slightly tilted). The engine's contact distance/normal and "
         "mj_geomDistance (both argument orders, with witness segment) are compared with vf/ref/convex.py: certified closest distance "
-        "(lower/upper bracket from support functions) when separated, exact minimum-translation depth for polytope pairs and an upper "
-        "bound certificate otherwise; the reported normal must realise the reported depth. distinct = (pair, variant, pose class, "
+        "(lower/upper bracket from support functions) when separated, exact minimum-translation depth for polytope pairs and a certified "
+        "two-sided bracket otherwise; the reported normal must realise the reported distance for polytope and for separated pairs. distinct = (pair, variant, pose class, "
         "orientation class, regime, multiccd); non-trivial = a contact or a finite geom distance was produced")
 ASSUMPTIONS = [
     "NOT DECIDABLE HERE: the clause 'the libccd path ... agree with each other' - libccd is absent from this build (the stand-in "
@@ -28,17 +28,27 @@ ASSUMPTIONS = [
     "default 50 a mismatch that disappears when the same pose is re-run with 1000 iterations is the documented effect of the "
     "iteration limit (doc XMLreference ccd_iterations: 'rarely needs to be adjusted, except ... very large aspect ratios'): skipped "
     "and counted, inconclusive above 2%",
-    "penetration: EPA returns the distance of the nearest polytope face, a lower bound of the depth; the check requires "
-    "(i) the depth lies in the reference bracket: >= ... it may not exceed the reference's best direction + tol (exact two-sided for "
-    "polytope pairs, upper-bound certificate otherwise), (ii) the overlap along the reported normal, recomputed from the reference "
-    "support functions, equals the reported depth within tol for polytope pairs and within 100*tol + 1e-3*size for curved pairs (EPA "
-    "stops on upper-lower < tolerance where 'upper' may stem from an earlier face, so the final direction is only first-order accurate)",
+    "penetration depth, two-sided in every regime: polytope pairs without margin have the exact minimum-translation depth (finite "
+    "candidate set); for curved or margin-rounded pairs the overlap width along ANY direction is an upper bound of the depth (sampled + "
+    "refined directions, plus every direction the engine itself reports), and when an engine value is shallower than that bound by more "
+    "than tol the lower side comes from cx.penetration_certified (distance from the origin to the boundary of the convex hull of support "
+    "points of the Minkowski difference, refined until upper-lower <= 0.1*tol; poses whose bracket does not close are counted as skipped)",
+    "direction: the statement asks for the distance/depth and its swap symmetry ('the same distance with the normal reversed'). That the "
+    "reported normal / fromto direction realises the reported distance along the reference support functions is required within tol for "
+    "polytope pairs without margin (exact there) and within 100*tol + 1e-3*size for separated curved pairs (GJK witness points; first-order "
+    "accuracy of the direction). For PENETRATING curved or margin-rounded pairs it is NOT part of the verdict: native EPA stops when "
+    "(best upper bound over all faces seen so far) - (distance of the current nearest face) < tolerance and returns the current face, "
+    "whose normal can be far from the optimal direction although the depth is right to tolerance (findings/C15-epa-stale-upper-bound.md); "
+    "the documentation promises no accuracy of the EPA normal. Such poses are counted (evidence_curved_penetration_*), the depth itself "
+    "is held to the two-sided bracket above, and no contact may be deeper than the geometry along its own normal",
     "multi-contact manifolds (multiccd, box/mesh single shot): each contact must not be deeper than the geometry along its normal; "
     "the deepest is compared with the reference",
-    "known open findings (out/findings/C15-*.md) are classified by a geometric mechanism decided from the reference alone: centres "
-    "closer than ccd_tolerance; true distance within 2*ccd_tolerance of zero (or of the margin for contacts); penetrating cylinder cap "
-    "parallel to a flat face; and, for curved penetrating pairs whose depth IS inside the reference bracket, a returned direction that "
-    "breaks EPA's own stopping rule (rate-limited: more than 0.5% of the penetrating poses is a violation)",
+    "known open findings (findings/C15-*.md) switch no comparison off. A violation is relabelled only if the failed comparison is in the "
+    "mechanism's explicit list (LISTED, mirrored by known_findings.json) and the mechanism is confirmed for it: coincident centres = "
+    "centres closer than ccd_tolerance AND the engine returned |centre1-centre2| (0 up to rounding) in both orders / no contact; touching "
+    "= true distance of the shapes that the failing path works on (un-inflated for mj_geomDistance, inflated by the margin for contacts) "
+    "within 2*ccd_tolerance of zero AND the comparison is a depth/distance or a contact-vs-mj_geomDistance comparison (never finiteness, "
+    "unit normals, dist <= margin or argument-order symmetry). Everything else is a VIOLATION",
     "contact positions are C13's subject; geom poses are read back from the engine",
 ]
 
@@ -113,27 +123,23 @@ def make_case(rng, pair, idx, nposes):
     return c
 
 
-def shape_min(S):
-    return S.minsize()
-
-
-def flat_normals(X):
-    if X.kind == cx.CYLINDER:
-        return X.axis[None, :]
-    if X.kind in (cx.BOX, cx.MESH):
-        return X.facets_edges()[0]
-    return np.zeros((0, 3))
-
-
-def cylinder_cap_parallel_to_flat_face(A, B):
-    """penetrating pair in which a cylinder cap is parallel (1e-6 rad) to a flat face of the other geom
-    (findings/C15-epa-unconverged-cylinder-cap-on-flat-face.md)"""
-    for X, Y in ((A, B), (B, A)):
-        if X.kind == cx.CYLINDER:
-            N = flat_normals(Y)
-            if len(N) and float(np.abs(N @ X.axis).max()) > 1 - 5e-13:
-                return True
-    return False
+# ---- listed mechanisms (open C15 entries of known_findings.json, one entry per line of these lists) ---------------------------------
+# A violation is relabelled only if the failed comparison is in the mechanism's explicit list AND the mechanism is confirmed for it.
+LISTED = {
+    # findings/C15-gjk-coincident-centres.md: gjk() leaves on its first statement when |centre1 - centre2| < tolerance and returns
+    # that norm (0 up to rounding); mjc_Convex then emits no contact
+    "ccd-coincident-centres": ("no-contact-although-distance-below-margin", "geomDistance-differs-from-reference"),
+    # findings/C15-epa-from-touching-simplex.md: mjc_ccd 'assumes touching' when the GJK distance is <= tolerance and starts EPA from a
+    # boundary simplex
+    "ccd-touching-within-tolerance": ("geomDistance-differs-from-reference", "geomDistance-differs-from-contact-dist",
+                                      "contact-dist-differs-from-reference", "contact-normal-does-not-realise-reported-distance",
+                                      "contact-normal-reversed"),
+}
+# which engine path must be in the touching band for each comparison: gd = un-inflated shapes (mj_geomDistance), c = shapes inflated by
+# the margin (mjc_Convex contacts)
+_TOUCH_PATH = {"geomDistance-differs-from-reference": ("gd",), "geomDistance-differs-from-contact-dist": ("gd", "c"),
+               "contact-dist-differs-from-reference": ("c",), "contact-normal-does-not-realise-reported-distance": ("c",),
+               "contact-normal-reversed": ("c",)}
 
 
 def check_pose(P, S, obs, distmax, witness, final=True):
@@ -141,7 +147,15 @@ def check_pose(P, S, obs, distmax, witness, final=True):
     with a larger iteration limit first"""
     c = S.c
     out = []
-    viol = lambda sig, **kw: out.append((sig, dict(witness, **{k: (v.tolist() if isinstance(v, np.ndarray) else v) for k, v in kw.items()})))
+    mechs = []          # (mechanism, test(check name) -> bool) for the listed mechanisms whose precondition this pose meets
+
+    def viol(sig, **kw):
+        chk = sig.split(":")[0]
+        for name, test in mechs:
+            if chk in LISTED[name] and test(chk):
+                sig = name + ":" + sig
+                break
+        out.append((sig, dict(witness, **{k: (v.tolist() if isinstance(v, np.ndarray) else v) for k, v in kw.items()})))
     kA, kB = base.canonical(S, obs)
     A, B = S.shape(kA), S.shape(kB)
     ext = A.extent() + B.extent()
@@ -155,9 +169,6 @@ def check_pose(P, S, obs, distmax, witness, final=True):
     # required to realise the distance within 100*tol + 1e-3*size for curved pairs and within tol for polytope pairs
     polytopes = A.kind in (cx.BOX, cx.MESH) and B.kind in (cx.BOX, cx.MESH) and S.margin + S.gap == 0     # a margin rounds the polytopes
     tolN = tol if polytopes else 100 * tol + 1e-3 * size
-    mech = "ccd-coincident-centres:" if base.ccd_coincident_centres(A, B, max(ccd_tol, 1e-15)) else ""
-    if mech:
-        P.count("poses_ccd-coincident-centres")
     isbox = (A.kind, B.kind) == (cx.BOX, cx.BOX)
     con = obs["con"]
     gdA, gdB = (obs["gd01"], obs["gd10"]) if kA == 0 else (obs["gd10"], obs["gd01"])
@@ -169,14 +180,14 @@ def check_pose(P, S, obs, distmax, witness, final=True):
     for i, k in enumerate(con):
         n = k["frame"][0]
         if not (np.isfinite(k["frame"]).all() and np.isfinite(k["dist"])):
-            viol(mech + "contact-not-finite:" + pairname, contact=i)
+            viol("contact-not-finite:" + pairname, contact=i)
             return "bad", out
         if abs(float(n @ n) - 1) > 1e-9:
-            viol(mech + "contact-normal-not-unit:" + pairname, contact=i, norm2=float(n @ n))
+            viol("contact-normal-not-unit:" + pairname, contact=i, norm2=float(n @ n))
         if k["dist"] > mg + 1e-12 * max(scale, mg):
-            viol(mech + "contact-dist-exceeds-margin:" + pairname, contact=i, dist=k["dist"], margin=mg)
+            viol("contact-dist-exceeds-margin:" + pairname, contact=i, dist=k["dist"], margin=mg)
     if not (np.isfinite(gdA) and np.isfinite(gdB)):
-        viol(mech + "geomDistance-not-finite:" + pairname, gd=[gdA, gdB])
+        viol("geomDistance-not-finite:" + pairname, gd=[gdA, gdB])
         return "bad", out
 
     # ---- reference
@@ -188,24 +199,64 @@ def check_pose(P, S, obs, distmax, witness, final=True):
         lo, hi = ref["lower"], ref["upper"]
         regime = "sep"
     else:
-        lo, hi = ref["lower"], (ref["upper"] if ref["exact"] else 0.0)      # -depth_ref <= d (always); d <= -depth_ref if exact
+        lo, hi = ref["lower"], (ref["upper"] if ref["exact"] else None)      # -depth_ref <= d (always); d <= -depth_ref if exact
         regime = "pen-exact" if ref["exact"] else "pen-bound"
-    P.note_max("ref_bracket_width_rel", (hi - lo) / size if ref["separated"] or ref["exact"] else 0.0)
-    # mechanism class of findings/C15-epa-from-touching-simplex.md: the true distance of the (margin-inflated, for contacts) shapes is
-    # within ccd_tolerance of zero, where mjc_ccd "assumes touching" and starts EPA from a boundary simplex
-    if not mech and not ref["separated"] and cylinder_cap_parallel_to_flat_face(A, B):
-        mech = "ccd-cylinder-cap-parallel-to-flat-face:"
-        P.count("poses_ccd-cylinder-cap-parallel-to-flat-face")
+    if regime == "pen-bound":
+        # curved pair: ref["lower"] = -(min of the overlap width over sampled+refined directions) is an upper-bound certificate of the
+        # depth only.  Every direction the engine reports is one more candidate for that bound (sound: the width along ANY direction
+        # bounds the depth from above).  The other side of the bracket comes from the certified inner-polytope bound
+        # cx.penetration_certified (lower bound of the depth), computed only when an engine value is shallower than lo + tol
+        cand = [k["frame"][0] for k in con]
+        for g, ft in ((gdA, ftA), (gdB, ftB)):
+            v = ft[3:] - ft[:3]
+            if g < 0 and float(v @ v) > 0:
+                cand.append(-v if ft is ftA else v)
+        for n_ in cand:
+            nn = float(np.linalg.norm(n_))
+            if nn > 0 and np.isfinite(nn):
+                lo = max(lo, -cx.width(A, B, n_ / nn))
+        vals = [g for g in (gdA, gdB) if g < distmax - tol] + ([min(k["dist"] for k in con)] if con and not isbox else [])
+        if any(v > lo + tol for v in vals):
+            cb = cx.penetration_certified(A, B, hints=[ref["n"]] + cand, eps=0.1 * tol)
+            P.count("pen_bound_brackets_certified" if cb["certified"] else "pen_bound_brackets_not_certified")
+            if not cb["certified"]:
+                P.count("skipped_reference_not_certified")
+                return "skip", out
+            lo, hi = max(lo, -cb["upper"]), -cb["lower"]
+            P.note_max("pen_bound_certified_width_over_tol", (hi - lo) / tol)
+        else:
+            hi = lo            # every engine value is within tol of (or deeper than) the certified upper bound of the depth: the
+            #                    two-sided test |d + depth_ub| <= tol needs no lower bound of the depth
+    P.note_max("ref_bracket_width_rel", (hi - lo) / size)
+
+    # ---- listed mechanisms: structural preconditions, decided from the reference BEFORE any comparison
+    cd = float(np.linalg.norm(A.pos - B.pos))
+    if base.ccd_coincident_centres(A, B, max(ccd_tol, 1e-15)):
+        P.count("poses_ccd-coincident-centres")
+        # confirmed when the engine returned the value of the first-iteration exit, |centre1 - centre2| (0 up to rounding), in both
+        # orders, resp. no contact at all
+        gd0 = abs(gdA - cd) <= 1e-15 + 1e-12 * cd and abs(gdB - cd) <= 1e-15 + 1e-12 * cd
+        mechs.append(("ccd-coincident-centres", lambda chk: (not con and gd0) if chk.startswith("no-contact") else gd0))
+    # touching: the true distance of the shapes is within 2*ccd_tolerance of zero (un-inflated shapes: mj_geomDistance) or of the
+    # margin (contacts: mjc_Convex works on shapes inflated by the margin).  Takes precedence over nothing else: it is the only
+    # region class left
     band = 2 * ccd_tol
-    if not mech and ((lo >= -band and hi <= band) or (mg > 0 and lo >= mg - band and (hi if regime != "pen-bound" else lo) <= mg + band)):
-        mech = "ccd-touching-within-tolerance:"
+    touch = set()
+    if lo >= -band and hi <= band:
+        touch.add("gd")
+        if mg == 0:
+            touch.add("c")
+    if mg > 0 and lo >= mg - band and hi <= mg + band:
+        touch.add("c")
+    if touch:
         P.count("poses_ccd-touching-within-tolerance")
+        mechs.append(("ccd-touching-within-tolerance", lambda chk: any(p_ in touch for p_ in _TOUCH_PATH.get(chk, ()))))
 
     # ---- mj_geomDistance: swap symmetry
     e = abs(gdA - gdB)
     P.note_max("geomdist_asym_over_tol", e / tol)
     if e > tol:
-        viol(mech + "geomDistance-not-symmetric:" + pairname, gd_ab=gdA, gd_ba=gdB, tol=tol, ref=[lo, hi])
+        viol("geomDistance-not-symmetric:" + pairname, gd_ab=gdA, gd_ba=gdB, tol=tol, ref=[lo, hi])
     # witness segments: reversed direction on swap (when a direction exists)
     if gdA < distmax and gdB < distmax and abs(gdA) > 100 * tol:
         va, vb = ftA[3:] - ftA[:3], ftB[3:] - ftB[:3]
@@ -215,52 +266,58 @@ def check_pose(P, S, obs, distmax, witness, final=True):
             sa = cx.sep(A, B, va / na * (1 if gdA > 0 else -1))
             sb = cx.sep(A, B, -vb / nb * (1 if gdB > 0 else -1))
             for nm, sv, g in (("ab", sa, gdA), ("ba", sb, gdB)):
-                if abs(sv - g) > tolN and not mech:
-                    pre = ""
+                if abs(sv - g) > tolN:
                     if g < 0 and not polytopes:
-                        pre = "ccd-epa-unconverged-face:"
-                    viol(pre + "geomDistance-fromto-direction-does-not-realise-distance:%s" % pairname, order=nm, sep_along_fromto=sv, gd=g, tol=tol,
+                        # penetrating curved (or margin-rounded) pair: the statement of C15 asks for the depth and its swap symmetry;
+                        # that EPA's final face normal realises the depth is not part of it (findings/C15-epa-stale-upper-bound.md):
+                        # recorded as evidence, not part of the verdict
+                        P.count("evidence_curved_penetration_fromto_direction_does_not_realise_depth")
+                        P.note_max("evidence_curved_penetration_direction_defect_over_size", abs(sv - g) / size)
+                        continue
+                    viol("geomDistance-fromto-direction-does-not-realise-distance:%s" % pairname, order=nm, sep_along_fromto=sv, gd=g, tol=tol,
                          fromto=(ftA if nm == "ab" else ftB))
             P.count("fromto_checked")
-    # ---- mj_geomDistance against the reference
+    # ---- mj_geomDistance against the reference (two-sided in every regime)
     for nm, g in (("ab", gdA), ("ba", gdB)):
         if hi >= distmax - tol and g >= distmax - tol:
             continue
         if g > min(hi, distmax) + tol or g < min(lo, distmax) - tol:
-            viol(mech + "geomDistance-differs-from-reference:%s:%s" % (regime, pairname), order=nm, gd=g, ref_lower=lo, ref_upper=hi, distmax=distmax, tol=tol)
+            viol("geomDistance-differs-from-reference:%s:%s" % (regime, pairname), order=nm, gd=g, ref_lower=lo, ref_upper=hi, distmax=distmax, tol=tol)
         P.note_max("geomdist_vs_ref_over_tol:" + regime, max(g - min(hi, distmax), min(lo, distmax) - g, 0) / tol)
-    # a reported depth must be realised along the witness direction (penetration; exact or not)
     # ---- contacts (mjc_Convex; box-box contacts come from the analytic collider and are C13's subject)
     if isbox:
         return regime + ":boxbox-geomdist-only", out
     if not con:
         if hi < mg - tol:
-            viol(mech + "no-contact-although-distance-below-margin:%s:%s" % (regime, pairname), ref_lower=lo, ref_upper=hi, margin=mg, gd=gdA)
+            viol("no-contact-although-distance-below-margin:%s:%s" % (regime, pairname), ref_lower=lo, ref_upper=hi, margin=mg, gd=gdA)
         return regime + ":nocontact", out
     i0 = int(np.argmin([k["dist"] for k in con]))
     k0 = con[i0]
     d0, n0 = k0["dist"], k0["frame"][0]
     if d0 > hi + tol or d0 < lo - tol:
-        viol(mech + "contact-dist-differs-from-reference:%s:%s" % (regime, pairname), dist=d0, ref_lower=lo, ref_upper=hi, tol=tol, ncon=len(con), normal=n0)
+        viol("contact-dist-differs-from-reference:%s:%s" % (regime, pairname), dist=d0, ref_lower=lo, ref_upper=hi, tol=tol, ncon=len(con), normal=n0)
     P.note_max("contact_vs_ref_over_tol:" + regime, max(d0 - hi, lo - d0, 0) / tol)
     s0 = cx.sep(A, B, n0)
     P.note_max("normal_realises_defect_over_tol", abs(s0 - d0) / tol)
     if abs(s0 - d0) > tolN:
         flipped = abs(cx.sep(A, B, -n0) - d0) <= tolN
-        pre = mech
-        if not mech and d0 < 0 and not polytopes and lo - tol <= d0 <= hi + tol:
-            # EPA's own stopping rule is (overlap along the face normal) - depth < tolerance: a result that violates it by more than
-            # tolN while the depth itself is inside the reference bracket left EPA through a non-converged exit
-            pre = "ccd-epa-unconverged-face:"
-        viol(pre + "contact-normal-%s:%s:%s" % ("reversed" if flipped else "does-not-realise-reported-distance", regime, pairname), dist=d0, sep_along_normal=s0, normal=n0,
-             ref_normal=ref["n"], ref_lower=lo, ref_upper=hi, tol=tol)
+        if d0 < 0 and not polytopes:
+            # see above: evidence only for penetrating curved pairs (EPA returns its last face, whose normal can be far from the
+            # optimal direction although the depth is right)
+            P.count("evidence_curved_penetration_normal_does_not_realise_depth")
+            if flipped:
+                P.count("evidence_curved_penetration_normal_reversed")
+            P.note_max("evidence_curved_penetration_direction_defect_over_size", abs(s0 - d0) / size)
+        else:
+            viol("contact-normal-%s:%s:%s" % ("reversed" if flipped else "does-not-realise-reported-distance", regime, pairname), dist=d0, sep_along_normal=s0,
+                 normal=n0, ref_normal=ref["n"], ref_lower=lo, ref_upper=hi, tol=tol)
     e = abs(d0 - gdA)
     if d0 < distmax - tol and e > tol:
-        viol(mech + "geomDistance-differs-from-contact-dist:%s:%s" % (regime, pairname), contact=d0, gd=gdA, tol=tol, ref=[lo, hi])
+        viol("geomDistance-differs-from-contact-dist:%s:%s" % (regime, pairname), contact=d0, gd=gdA, tol=tol, ref=[lo, hi])
     for i, k in enumerate(con):
         si = cx.sep(A, B, k["frame"][0])
         if k["dist"] < si - tolN:
-            viol(mech + "contact-deeper-than-geometry-along-its-normal:%s" % pairname, contact=i, dist=k["dist"], sep_along_normal=si, ncon=len(con))
+            viol("contact-deeper-than-geometry-along-its-normal:%s" % pairname, contact=i, dist=k["dist"], sep_along_normal=si, ncon=len(con))
     if len(con) > 1:
         P.count("poses_multicontact")
     return regime + ":contact", out
@@ -311,8 +368,6 @@ def run_case(c, P, poses=None):
             P.violation("engine-error-in-convex-collision:" + str(e).split(":")[0][:40], dict(witness, error=str(e)))
             S.d = S.m.make_data()
             continue
-        if any(sig.startswith("ccd-epa-unconverged-face:") for sig, _ in viols):
-            P.count("epa_unconverged_direction")
         for sig, det in viols:
             P.violation(sig, det)
         P.count("poses")
@@ -343,7 +398,7 @@ def run(ctx):
     build.ensure("rel")
     st = cx.self_test(n=36)
     ctx.extra["reference_self_test"] = {k: float(v) for k, v in st.items()}
-    if st["dist_gap"] > 1e-9 or st["pen_exact_vs_sampled"] > 1e-9 or st.get("pen_exact_vs_refined", 0) > 1e-6:
+    if st["dist_gap"] > 1e-9 or st["pen_exact_vs_sampled"] > 1e-9 or st.get("pen_exact_vs_refined", 0) > 1e-6 or st.get("pen_certified_bracket", 0) > 1e-9:
         ctx.inconclusive("reference self test failed: %s" % st)
         return
     cs = cases(ctx)
@@ -353,10 +408,6 @@ def run(ctx):
     ctx.extra["skipped_fraction"] = sk / n
     if sk > 0.02 * n and not ctx.violations:
         ctx.inconclusive("%d of %d poses skipped (iteration limit / uncertified reference) > 2%%" % (sk, n))
-    npen = sum(v for k, v in ctx.counters.items() if k.startswith("regime:pen"))
-    if ctx.counters.get("epa_unconverged_direction", 0) > 0.005 * max(npen, 200):
-        ctx.violation("ccd-epa-unconverged-face-rate-above-0.5-percent-of-penetrating-poses",
-                      {"count": ctx.counters.get("epa_unconverged_direction", 0), "penetrating_poses": npen})
     if ctx.counters.get("model_rejected", 0) > 0.02 * len(cs):
         ctx.inconclusive("too many generated models rejected (%d)" % ctx.counters.get("model_rejected", 0))
     ctx.min_nontrivial = ctx.pick(250, 1200)
